@@ -231,7 +231,9 @@ func genUTF8(g *G) {
 
 func genC04(g *G) {
 	genUTF8(g)
-	genGenBech32(g)
+	if genGenBech32 != nil {
+		genGenBech32(g)
+	}
 	emit := func(s string) { g.emit("bech32.dec", hx([]byte(s))) }
 	// every 5-bit symbol sequence length 0..84 with a correct checksum: all padding patterns of the last symbol
 	for n := 0; n <= 84; n++ {
